@@ -184,18 +184,24 @@ def translate_c_to_sympy(source_circuit):
             # Work on a copy: the source circuit must keep its string parameter
             gate = Gate(gate.name, gate.target, gate.control, symbols(gate.parameter, real=True), gate.is_variational)
 
+        # One control qubit: its index. Several control qubits: all of them (sympy's CGate accepts a tuple)
+        if gate.control is not None:
+            control = gate.control[0] if len(gate.control) == 1 else tuple(gate.control)
+
         if gate.name in {"H", "X", "Y", "Z"}:
             target_circuit *= GATE_SYMPY[gate.name](gate.target[0])
         elif gate.name in {"T", "S"} and gate.parameter == "":
             target_circuit *= GATE_SYMPY[gate.name](gate.target[0])
         elif gate.name in {"PHASE", "RX", "RY", "RZ"}:
             target_circuit *= GATE_SYMPY[gate.name](gate.target[0], gate.parameter)
+        elif gate.name in {"CNOT", "CX"} and len(gate.control) > 1:
+            target_circuit *= controlled_gate(GATE_SYMPY["X"])(control, gate.target[0])
         elif gate.name in {"CNOT", "CH", "CX", "CY", "CZ", "CS", "CT"}:
-            target_circuit *= GATE_SYMPY[gate.name](gate.control[0], gate.target[0])
+            target_circuit *= GATE_SYMPY[gate.name](control, gate.target[0])
         elif gate.name in {"SWAP"}:
             target_circuit *= GATE_SYMPY[gate.name](gate.target[0], gate.target[1])
         elif gate.name in {"CRX", "CRY", "CRZ", "CPHASE"}:
-            target_circuit *= GATE_SYMPY[gate.name](gate.control[0], gate.target[0], gate.parameter)
+            target_circuit *= GATE_SYMPY[gate.name](control, gate.target[0], gate.parameter)
         else:
             raise ValueError(f"Gate '{gate.name}' not supported on backend SYMPY")
 
